@@ -21,11 +21,11 @@ LEX = {"a": "argA", "d": "dd", "e": "ee", "x": "xx", "f": "fval", "g": "gval", "
 LX = lambda n: LEX.get(n, n)
 
 
-BANG = {("foreach", 0): "!foreach(%(p)s, [1, 2], %(pu)s)", ("foreach", 1): "!foreach(%(p)s, [1, 2], !add(%(pu)s, 1))",
+BANG = {("foreach", 0): "!foreach(%(p)s , [1, 2], %(pu)s)", ("foreach", 1): "!foreach(%(p)s, [1, 2], !add(%(pu)s, 1))",
         ("foreach", 2): "!foreach(%(p)s, [1, 2], !cond(%(pu)s: 1, 1: 2))",
-        ("filter", 0): "!filter(%(p)s, [1, 2], !eq(%(pu)s, 1))", ("filter", 1): "!filter(%(p)s, [1, 2], %(pu)s)",
+        ("filter", 0): "!filter(%(p)s, [1, 2], !eq(%(pu)s, 1))", ("filter", 1): "!filter(%(p)s /* v */ , [1, 2], %(pu)s)",
         ("filter", 2): "!filter(%(p)s, [1, 2], !cond(%(pu)s: 1, 1: 0))",
-        ("foldl", 0): "!foldl(0, [1, 2], %(q)s, %(p)s, !add(%(qu)s, %(pu)s))", ("foldl", 1): "!foldl(0, [1, 2], %(q)s, %(p)s, %(qu)s)",
+        ("foldl", 0): "!foldl(0, [1, 2], %(q)s, %(p)s, !add(%(qu)s, %(pu)s))", ("foldl", 1): "!foldl(0, [1, 2], %(q)s /* acc */ , %(p)s , %(qu)s)",
         ("foldl", 2): "!foldl(0, [1, 2], %(q)s, %(p)s, !cond(%(pu)s: %(qu)s, 1: 0))"}
 
 
@@ -120,6 +120,21 @@ def render(b, rng, split=True, docs=True, mode="lib"):
             if lead[cur] and not (split and cur == "main"):
                 emit("\n")
         if e == "ClassOpen":
+            if docs and rng.random() < 0.12:
+                # optional syntax: the class is forward-declared right before it is defined - a declaration of its own in the
+                # outline (no children), a statement of its own for folding, no uses (every use comes after the definition)
+                extra_site[0] += 1
+                fs = extra_site[0]
+                R.outline[cur].append({"kind": "Class", "name": LX(ev["c"]), "site": fs, "children": []})
+                emit(ind())
+                a0 = len(files[cur])
+                emit("class ")
+                emit(LX(ev["c"]), fs)
+                emit(";")
+                R.folds.append((cur, a0, len(files[cur])))
+                emit("\n")
+                R.decl[fs] = ("class", ev["c"])
+                R.sigs[fs] = "class %s" % LX(ev["c"])
             doc(ev["site"], "class")
             node = {"kind": "Class", "name": LX(ev["c"]), "site": ev["site"], "children": []}
             (stack[-1]["node"]["children"] if False else R.outline[cur]).append(node)
@@ -663,7 +678,7 @@ def check_c19(tier, seed):
             if a[0] != sig:
                 v.report("C19 hover signature-differs of=%s" % dk, {"expected": sig, "got": a[0], "site": loc(R, site),
                                                                      "text": R.text[R.sites[tgt][0]]}, replay)
-            if tgt in R.docs or dk in ("class", "def", "field", "defset", "multiclass", "defvar"):
+            if tgt in R.docs or dk in ("class", "def", "field", "defset", "multiclass", "defvar", "targ"):
                 want = R.docs.get(tgt)
                 if want is not None:
                     ndoc += 1
